@@ -20,7 +20,7 @@ ID = 'C13'
 LEVEL = 'exploration'
 RULE = ('generated schedule rows (airport pairs over 52 airports incl. antimeridian/polar, '
         'range kinds {single day, 1-2 weeks, across spring/autumn DST, months, whole year, '
-        'open-from, open-to, open-both}, all weekday subsets, local times incl. 00:00/23:59/'
+        'open-from, open-to, open-both, open ranges reaching into / lying wholly in the neighbouring year, calendar corners (1 Jan, 28/29 Feb, 31 Dec), same-zone flights across the clock change on the day of the change}, data years 2019 / 2021 / 2024, all weekday subsets, local times incl. 00:00/23:59/'
         'DST-gap times, arrival offsets P/blank/0/1/2, stated distance exact / within 50 km '
         '/ within 10 % / outside both / zero, each documented skip reason) imported through '
         'the real CSV reader and OAGDatabase.add; flights / schedules / airports rows read '
